@@ -15,6 +15,20 @@
     opt_verify  exec's post-op (-t with -R exec), target list, negative time-outs, pcp operands
     string_to_int = strtoul, errno / trailing test, `(int)` cast;  atoi = `(int) strtol`;
     copy_username's length test.
+    -w words    wcoll_args_process / get_host_rcmd_type as far as they touch the settings of this property:
+                `[rcmd_type:][user@]hosts` prefixes (malformed order, unknown per-target transport => errx;
+                per-target user name: unchecked), list_split's comma/bracket rule
+    module-provided options   their getopt text (`Defaults.modOpts`): known to opt_args, unknown to opt_args_early
+
+  Deliberately OUTSIDE this model, and why they do not bear on C18:
+    * which user / transport a single target finally gets from a `type:` / `user@` prefix (precedence over -l / -R
+      per host): property C09; here only acceptance or refusal of the values.
+    * excluded words (`-x`, `-host`), `^file` and `/regex/` words, WCOLL, module-supplied target lists: they select
+      TARGETS (C02, C10); the only way they reach this property is an empty target list, a refusal the
+      specification admits (`structOk`).
+    * DSHPATH: part of the command (C09).  -z / -Z / -y / -T: undocumented pdcp server/client modes and test
+      hooks, for which opt_verify skips the checks; theorems carry the hypothesis `pcpServer = pcpClient = false`.
+    * what a module's option handler does with its argument: only the option's arity matters for the settings.
 
   Every place where the unchanged code violates the property text has ONE switch in `Fixes`
   (`Fixes.none` = the code in /repo, `Fixes.all` = the proposed repairs, findings/C18.json):
